@@ -118,6 +118,38 @@ func reencodings(rng *rand.Rand, orig []byte) []mutant {
 		b = append(b, orig[i+len(`"memo":""`):]...)
 		addRaw("type-error-zero-value", b)
 	}
+	// hardware-wallet signatures carry a 6-byte hash tag in front: the same signature under another spelling of the tag
+	if base.Type != action.OLVM {
+		if t := core.DecodeTx(orig); t != nil {
+			ch := false
+			for i := range t.Signatures {
+				sg := t.Signatures[i].Signed
+				if len(sg) == 70 && bytes.HasPrefix(sg, []byte("SHA")) {
+					n := append([]byte{}, sg...)
+					copy(n, bytes.ToLower(sg[:3]))
+					if rng.Intn(2) == 0 {
+						n[0] = 's'
+						n[1], n[2] = 'H', 'A'
+					}
+					t.Signatures[i].Signed = n
+					ch = true
+				}
+			}
+			if ch {
+				if b := encodeSigned(t); b != nil {
+					out = append(out, mutant{Bytes: b, Label: kind + "/replay:prehash-tag-case"})
+				}
+			}
+		}
+		// the signer key with bytes appended (a decoder that only checks a minimum length reads the same key)
+		if t := core.DecodeTx(orig); t != nil && len(t.Signatures) > 0 {
+			i := rng.Intn(len(t.Signatures))
+			t.Signatures[i].Signer.Data = append(append([]byte{}, t.Signatures[i].Signer.Data...), byte(rng.Intn(256)))
+			if b := encodeSigned(t); b != nil {
+				out = append(out, mutant{Bytes: b, Label: kind + "/replay:signer-key-extended"})
+			}
+		}
+	}
 	// surplus signature: the signature list itself is not signed; the required signatures stay in front
 	if base.Type != action.OLVM {
 		t := core.DecodeTx(orig)
@@ -353,7 +385,7 @@ func init() {
 	Register(&ClusterProp{
 		Id: "C05",
 		RuleText: "each run: honest blocks (swarm subset of all generators) execute transactions; every 2-4 blocks the replayer picks transactions executed earlier (all kinds, delivered with code 0, same block age .. whole run) and resubmits them " +
-			"byte-identical and re-encoded with the signed content unchanged (key order, whitespace, trailing space, unknown extra field, shadowed duplicate key, \\u escape, key case, decoder type errors that leave the content intact, a surplus signature behind the required ones, OLVM memo with leading zeros, OLVM signer key field, OLVM payload null/empty flips, OLVM inner payload key order). Every resubmission goes through CheckTx on a probe node " +
+			"byte-identical and re-encoded with the signed content unchanged (key order, whitespace, trailing space, unknown extra field, shadowed duplicate key, \\u escape, key case, decoder type errors that leave the content intact, a surplus signature behind the required ones, another spelling of a hardware-wallet hash tag, signer key bytes extended, OLVM memo with leading zeros, OLVM signer key field, OLVM payload null/empty flips, OLVM inner payload key order). Every resubmission goes through CheckTx on a probe node " +
 			"and is delivered in a block of resubmissions only (byzantine proposer). Oracles: CheckTx code != 0; the resubmission block's app hash equals that of a twin that received the same BeginBlock and no transactions. " +
 			"Assumes the node's tx index is complete for every applied block. Non-trivial: >=3 resubmissions delivered and >=3 successful originals; distinct = distinct fingerprints; `inputs` = resubmissions delivered.",
 		MakeSetup: func(rng *rand.Rand, tier string, seed uint64) *Setup {
